@@ -201,3 +201,228 @@ def run_case(case: Dict[str, Any], max_steps: int = 200) -> Dict[str, Any]:
     out["steps"] = [s for s in steps if s["kind"] != "abort"]
     out["gate_log"] = [list(map(list, g[:3])) for g in ex.gate_log]
     return out
+
+
+# --------------------------------------------------------------------------
+# EPR rig: recording network stack, scripted responses, schedule replay
+# --------------------------------------------------------------------------
+from netqasm.qlink_compat import BellState, LinkLayerOKTypeK, LinkLayerOKTypeM, RequestType, ReturnType  # noqa: E402
+
+
+class RecordingStack(BaseNetworkStack):
+    def __init__(self):
+        self.requests = []
+        self.sockets = []
+
+    def put(self, request):
+        self.requests.append(request)
+
+    def setup_epr_socket(self, epr_socket_id, remote_node_id, remote_epr_socket_id, timeout=1.0):
+        self.sockets.append((epr_socket_id, remote_node_id, remote_epr_socket_id))
+        return None
+
+    def get_purpose_id(self, remote_node_id, epr_socket_id):
+        return epr_socket_id
+
+
+class EprRun:
+    """One scenario of harness/epr_scn.py on the real executor, driven action by action."""
+
+    def __init__(self, scn):
+        self.scn = scn
+        self.ex = fresh_executor(node_id=0)
+        self.stack = RecordingStack()
+        self.ex.network_stack = self.stack
+        self.app = 0
+        self.ex.init_new_application(app_id=0, max_qubits=scn["umsize"])
+        clss = {c.mnemonic: c for c in isa.classes("vanilla")}
+        shapes = {e["mn"]: e["shape"] for e in isa.extract_table()["vanilla"]}
+        self._mk = lambda i: isa.build(clss[i["mn"]], shapes[i["mn"]], i["ops"])
+        setup = []
+        T0, T1, T2 = 15, 14, 13
+        for a in scn["arrs"]:
+            setup += [{"mn": "set", "ops": [T0, len(a["v"])]}, {"mn": "array", "ops": [T0, a["a"]]}]
+            for idx, e in enumerate(a["v"]):
+                if e[0] == 1:
+                    setup += [{"mn": "set", "ops": [T1, e[1]]}, {"mn": "set", "ops": [T2, idx]}, {"mn": "store", "ops": [T1, a["a"], T2]}]
+        for v in scn["alloc"]:
+            setup += [{"mn": "set", "ops": [32 + 15, v]}, {"mn": "qalloc", "ops": [32 + 15]}]
+        for r in scn["regs"]:
+            setup.append({"mn": "set", "ops": [r["r"], r["v"]]})
+        self.ex.step_mode = False
+        for _ in self.ex.execute_subroutine(Subroutine(instructions=[self._mk(i) for i in setup], app_id=0, netqasm_version=(0, 0))):
+            pass
+        self.ex.step_mode = True
+        self.sub_id = self.ex._next_subroutine_id
+        self.gen = self.ex.execute_subroutine(Subroutine(instructions=[self._mk(i) for i in scn["prog"]], app_id=0, netqasm_version=(0, 0)))
+        self.finished = False
+        self.fault = None
+        self.herr = False
+        self.nput = 0
+        self.seq = 0
+        self.net = [dict(dir=1, remote=s["remote"], purpose=s["purpose"], type=s["type"], left=s["n"]) for s in scn["remote"]]
+
+    # ---- actions -------------------------------------------------------
+    def _sync_net(self):
+        while self.nput < len(self.stack.requests):
+            rq = self.stack.requests[self.nput]
+            self.nput += 1
+            self.net.append(dict(dir=0, remote=rq.remote_node_id, purpose=rq.purpose_id,
+                                 type="K" if rq.type == RequestType.K else "M", left=rq.number))
+
+    def step(self) -> str:
+        """'stepped' | 'blocked' | 'finished' | 'fault'"""
+        if self.finished:
+            return "finished"
+        while True:
+            try:
+                y = next(self.gen)
+            except StopIteration:
+                self.finished = True
+                return "finished"
+            except Exception as exc:
+                self.finished = True
+                self.fault = f"{type(exc).__name__}: {str(exc).splitlines()[0]}"[:200]
+                return "fault"
+            if y == STEP:
+                self._sync_net()
+                return "stepped"
+            if y == WAIT:
+                return "blocked"
+
+    def deliverable(self):
+        out = []
+        for s, st in enumerate(self.net):
+            if st["left"] > 0 and all(not (t["dir"] == st["dir"] and (t["remote"], t["purpose"]) == (st["remote"], st["purpose"]) and t["left"] > 0)
+                                      for t in self.net[:s]):
+                out.append(s)
+        return out
+
+    def deliver(self, s):
+        st = self.net[s]
+        st["left"] -= 1
+        seq = self.seq
+        self.seq += 1
+        if st["type"] == "K":
+            phys = self.ex._get_unused_physical_qubit()
+            resp = LinkLayerOKTypeK(type=ReturnType.OK_K, create_id=0, logical_qubit_id=phys, directionality_flag=st["dir"],
+                                    sequence_number=seq, purpose_id=st["purpose"], remote_node_id=st["remote"],
+                                    goodness=0, goodness_time=0, bell_state=BellState(seq % 4))
+        else:
+            resp = LinkLayerOKTypeM(type=ReturnType.OK_M, create_id=0, measurement_outcome=seq % 2, measurement_basis=0,
+                                    directionality_flag=st["dir"], sequence_number=seq, purpose_id=st["purpose"],
+                                    remote_node_id=st["remote"], goodness=0, bell_state=BellState(seq % 4))
+        try:
+            self.ex._handle_epr_response(resp)
+        except Exception as exc:
+            self.herr = True
+            self.herr_msg = f"{type(exc).__name__}: {str(exc).splitlines()[0]}"[:200]
+
+    def retry(self):
+        try:
+            self.ex._handle_pending_epr_responses()
+        except Exception as exc:
+            self.herr = True
+            self.herr_msg = f"{type(exc).__name__}: {str(exc).splitlines()[0]}"[:200]
+
+    # ---- projection ----------------------------------------------------
+    def project(self):
+        ex, scn = self.ex, self.scn
+        regs = regfile(ex._registers[0])
+        arrs = ex._app_arrays[0]._arrays
+        def q(d):
+            keys = sorted(k for k, v in d.items() if v)
+            return [list(k) for k in keys], [[{"key": list(k), "qarr": (-1 if r.q_array_address is None else r.q_array_address),
+                                               "res": r.ent_results_array_address, "tot": r.tot_pairs, "left": r.pairs_left} for r in d[k]] for k in keys]
+        ck, cq = q(ex._epr_create_requests)
+        rk, rq = q(ex._epr_recv_requests)
+        status = "fault" if self.fault else ("done" if self.finished else "run")
+        return {
+            "regs": [opt(regs.get(r["r"])) for r in scn["regs"]],
+            "arrs": [[opt(x) for x in arrs.get(a["a"], [])] for a in scn["arrs"]],
+            "um": [(-1 if p is None else p) for p in ex._qubit_unit_modules[0]],
+            "used": sorted(ex._used_physical_qubit_addresses),
+            "pc": ex._program_counters.get(self.sub_id, 0) if not self.finished or self.fault else self._last_pc,
+            "status": status, "ckeys": ck, "createQ": cq, "rkeys": rk, "recvQ": rq,
+            "pending": [r.sequence_number for r in ex._pending_epr_responses], "herr": self.herr,
+        }
+
+    _last_pc = 0
+
+    def apply(self, act):
+        """Apply one action; returns the event (with post-state) or None if the action
+        is not enabled / changes nothing (a blocked wait, an idle retry)."""
+        pre = self.project()
+        if act[0] == "step":
+            self._last_pc = pre["pc"]
+            r = self.step()
+            if r == "blocked":
+                return None
+            if r == "finished":
+                self._last_pc = pre["pc"]
+                ev = {"a": "finish"}
+            else:
+                ev = {"a": "step"}
+        elif act[0] == "deliver":
+            self.deliver(act[1])
+            ev = {"a": "deliver", "s": act[1] + 1}
+        else:
+            self.retry()
+            ev = {"a": "retry"}
+        post = self.project()
+        if act[0] == "retry" and post == pre:
+            return None
+        ev["post"] = post
+        return ev
+
+    def enabled(self):
+        acts = []
+        if self.herr:
+            return acts
+        if not self.finished:
+            acts.append(("step",))
+        acts += [("deliver", s) for s in self.deliverable()]
+        if self.ex._pending_epr_responses:
+            acts.append(("retry",))
+        return acts
+
+
+def explore_schedules(scn, max_depth=40, max_paths=4000):
+    """Stateless DFS over ALL schedules of the real executor for one scenario,
+    pruned by the projected state.  Returns the list of explored paths, each a
+    list of events (action + projected post-state)."""
+    paths, seen = [], set()
+    import json as _json
+
+    def replay(prefix):
+        run = EprRun(scn)
+        evs = []
+        for a in prefix:
+            evs.append(run.apply(a))
+        return run, evs
+
+    stack = [[]]
+    edges = 0
+    while stack and len(paths) < max_paths:
+        prefix = stack.pop()
+        run, evs = replay(prefix)
+        if any(e is None for e in evs):
+            continue
+        key = _json.dumps([run.project(), run.finished, [s["left"] for s in run.net]], sort_keys=True)
+        if prefix and key in seen:
+            paths.append(evs)
+            continue
+        seen.add(key)
+        acts = run.enabled() if len(prefix) < max_depth else []
+        ext = []
+        for a in acts:
+            r2, e2 = replay(prefix + [a])
+            if e2[-1] is not None:
+                ext.append(a)
+        if not ext:
+            paths.append(evs)
+            continue
+        edges += len(ext)
+        for a in ext:
+            stack.append(prefix + [a])
+    return [p for p in paths if p], len(seen), edges
